@@ -30,7 +30,7 @@ def shards(tier, seed, scale=1.0):
     for i in range(8):
         out.append({"name": "shapes-%d" % i, "kind": "enum", "block": "shapes", "part": i, "of": 8, "passes": passes, "seed": seed,
                     "exhaustive": True, "guest_ok": i == 0})
-    out += common.rand_shards(ID, tier, seed, scale, 6000, 150000)
+    out += common.rand_shards(ID, tier, seed, scale, 14000, 150000)
     return out
 
 
